@@ -14,6 +14,7 @@ import Pdb.Model.Migrate
 import Pdb.Model.BTree
 import Pdb.Model.BTreeBatch
 import Pdb.Model.BTreePipe
+import Pdb.Model.BTreePhys
 import Pdb.Model.Index
 import Pdb.Model.DumpCheck
 import Pdb.Model.DumpCheckRc
@@ -22,6 +23,14 @@ import Pdb.Model.C11Driver
 import Pdb.Model.RefineRc
 import Pdb.Model.Recover
 import Pdb.Model.ConcReadDriver
+import Pdb.Model.LockDir
+import Pdb.Model.PhysRec
+import Pdb.Model.PhysRecRc
+import Pdb.Model.MultiTreePhys
+import Pdb.Model.C02xTxDriver
+import Pdb.Model.ConcSlotDriver
+import Pdb.Model.Journal
+import Pdb.Model.ValueIter
 
 open Pdb
 
@@ -118,13 +127,20 @@ structure State where
   c10 : Pdb.MultiTree.DState := none
   c04 : Option Pdb.C04.Drv := none
   c04b : Option Pdb.C04.DrvB := none
+  c04phys : Pdb.BTreePhys.State := {}
   c09 : Pdb.Index.DState := Pdb.Index.DState.init
   c02x : Pdb.C02xDriver.State := none
+  c02xt : Pdb.C02xTxDriver.State := none
+  physrec : Pdb.PhysRec.DState := Pdb.PhysRec.DState.init
+  mtphys : Pdb.MultiTreePhys.DState := none
+  c05s : Pdb.CSlotDriver.State := none
+  t3 : Pdb.T3.State := none
   c11 : Pdb.C11Driver.State := none
   lastTree : List String := []   -- tokens of the last `t2 tree` dump (reused by `c04b cursor load`)
   r5 : Pdb.RefineRc.DState := Pdb.RefineRc.DState.init
   p1r : Pdb.RecoverDriver.State := none   -- file-tracking wrapper around p1, fed every `p1` line
   c05 : Pdb.CRdDriver.State := none
+  c18 : Pdb.LockDir.State := Pdb.LockDir.init
 
 def stepLine (s : State) (line : String) : State × String :=
   let ws := (line.trimAscii.toString.splitOn " ").filter (· ≠ "")
@@ -160,6 +176,9 @@ def stepLine (s : State) (line : String) : State × String :=
     let args := if rest == ["load"] then "load" :: s.lastTree else rest
     let r := Pdb.C04.driverStep s.c04 ("cursor" :: args)
     ({ s with c04 := r.1 }, r.2)
+  | "c04b" :: "phys" :: rest =>
+    let (st', out) := Pdb.BTreePhys.step s.c04phys rest
+    ({ s with c04phys := st' }, out)
   | "c04b" :: rest =>
     let r := Pdb.C04.driverStepB s.c04b rest
     ({ s with c04b := r.1 }, r.2)
@@ -167,8 +186,11 @@ def stepLine (s : State) (line : String) : State × String :=
     let (c, o) := Pdb.MultiTree.step s.c10 rest
     ({ s with c10 := c }, o)
   | "c06" :: "t" :: rest =>
-    let (st', out) := Pdb.ValueTable.step s.c06 rest
-    ({ s with c06 := st' }, out)
+    match Pdb.ValueIter.c06Step s.c06 rest with
+    | some out => (s, out)
+    | none =>
+      let (st', out) := Pdb.ValueTable.step s.c06 rest
+      ({ s with c06 := st' }, out)
   | "c06" :: rest => (s, Pdb.ValueTable.driverLine rest)
   | "t2" :: "tree" :: rest =>
     ({ s with lastTree := rest }, Pdb.DumpCheck.driverLine ("tree" :: rest))
@@ -177,15 +199,36 @@ def stepLine (s : State) (line : String) : State × String :=
   | "c02x" :: rest =>
     let (c, o) := Pdb.C02xDriver.step s.c02x rest
     ({ s with c02x := c }, o)
+  | "c02xt" :: rest =>
+    let (c, o) := Pdb.C02xTxDriver.step s.c02xt rest
+    ({ s with c02xt := c }, o)
+  | "physrec" :: rest =>
+    let (d, out) := Pdb.PhysRec.stepR s.physrec rest
+    ({ s with physrec := d }, out)
+  | "mtphys" :: rest =>
+    let (d, out) := Pdb.MultiTreePhys.step s.mtphys rest
+    ({ s with mtphys := d }, out)
+  | "c05s" :: rest =>
+    let (c, o) := Pdb.CSlotDriver.step s.c05s rest
+    ({ s with c05s := c }, o)
+  | "t3" :: rest =>
+    let (c, o) := Pdb.T3.step s.t3 rest
+    ({ s with t3 := c }, o)
   | "r5" :: rest =>
-    let (d, out) := Pdb.RefineRc.step s.r5 rest
-    ({ s with r5 := d }, out)
+    match Pdb.ValueIter.r5Step s.r5 rest with
+    | some out => (s, out)
+    | none =>
+      let (d, out) := Pdb.RefineRc.step s.r5 rest
+      ({ s with r5 := d }, out)
   | "c11" :: rest =>
     let (c, o) := Pdb.C11Driver.step s.c11 rest
     ({ s with c11 := c }, o)
   | "c05" :: rest =>
     let (c, o) := Pdb.CRdDriver.step s.c05 rest
     ({ s with c05 := c }, o)
+  | "c18" :: rest =>
+    let (c, o) := Pdb.LockDir.step s.c18 rest
+    ({ s with c18 := c }, o)
   | [] => (s, "")
   | _ => (s, "bad-op")
 
